@@ -12,7 +12,7 @@ done_marker = 'meta.json'
 ROOT = os.environ.get('SEED_ROOT', '/tmp/mut')
 SUFFIX = os.environ.get('SEED_SUFFIX', '')
 only = sys.argv[1:] or None
-for seed in sorted(glob.glob(ROOT + '/C*/_seed/[AB]')):
+for seed in sorted(glob.glob(ROOT + '/C*/_seed/[A-C]')):
     prop = seed.split('/')[3]
     x = os.path.basename(seed)
     if only and prop not in only:
